@@ -337,3 +337,43 @@ void vf_harness(void) {
     functions=['String::equalsNocase (loop body)', 'String::toLowerCase (loop body)', 'toLowercaseU8'],
 )
 UNITS += [nocase_pair]
+
+# equalsNocase as a whole, on short strings: equal exactly when the lower-cased forms are equal (also when their byte lengths differ)
+nocase_whole = Unit(
+    'equalsNocase_short_strings', 'C08',
+    cuts=[Cut('tbl', UD, r'^char toLowercaseU8\[\]=""', kind='stmt'), CONV_CUTS()[0], ENUM_CUT(),
+          Cut('lbody', S, r'^\tfor \(Enumerator e = all\(\); e; \+\+e\)\s*$', nth=1, count=2, rules=[(r'int\s+code = \*e;', 'int code = Enumerator_deref(&e);', 1)]),
+          Cut('eq', S, r'^bool String::equalsNocase\(const String& s\) const\s*$',
+              rules=[NOANSI, (r'Enumerator e1 = all\(\);', 'Enumerator e1; e1.u = s1; e1.n = 1;', None), (r'Enumerator e2 = s\.all\(\);', 'Enumerator e2; e2.u = s2; e2.n = 1;', None),
+                     (r'for \(; e1 && e2; \+\+e1, \+\+e2\)', 'for (; EOK(e1) && EOK(e2); e1.u += e1.n, e2.u += e2.n)', None),
+                     (r'int code1 = \*e1, code2 = \*e2;', 'int code1 = Enumerator_deref(&e1), code2 = Enumerator_deref(&e2);', None),
+                     (r'\(e1 && !e2\) \|\| \(!e1 && e2\)', '(EOK(e1) && !EOK(e2)) || (!EOK(e1) && EOK(e2))', None),
+                     (r'(?<![\w.>])length\(\)', 'vf_len(s1)', None), (r'\bs\.length\(\)', 'vf_len(s2)', None)])],
+    text=PRE + ENUM_C + r'''
+@@tbl@@
+#define EOK(e) (*(e).u != 0)
+static int vf_len(const char* p) { int n = 0; while (p[n]) n++; return n; }
+int utf32toUtf8(const int* p, char* u, int n) @@utf32toUtf8@@
+int Enumerator_deref(Enumerator* self) @@deref@@
+/* toLowerCase of a short string into out (its extracted loop body, driven by the same enumerator) */
+static int lower(const char* txt, char* out) { char* p = out; int u[2] = { 0, 0 }; Enumerator e; e.u = txt; e.n = 1;
+  for (; EOK(e); e.u += e.n) @@lbody@@
+  *p = 0; return (int)(p - out); }
+static bool equalsNocase(const char* s1, const char* s2) @@eq@@
+char nondet_char(void);
+void vf_harness(void) {
+  char a[3], b[3]; a[0] = nondet_char(); a[1] = nondet_char(); a[2] = 0; b[0] = nondet_char(); b[1] = nondet_char(); b[2] = 0;
+  /* well-formed short texts: ASCII letters or one 2-byte sequence (ill-formed input is covered by the any-bytes units) */
+  __CPROVER_assume(((a[0] & 0x80) == 0 && (a[1] & 0x80) == 0) || ((a[0] & 0xe0) == 0xc0 && (a[1] & 0xc0) == 0x80));
+  __CPROVER_assume(((b[0] & 0x80) == 0 && (b[1] & 0x80) == 0) || ((b[0] & 0xe0) == 0xc0 && (b[1] & 0xc0) == 0x80));
+  char la[8], lb[8]; int na = lower(a, la), nb = lower(b, lb);
+  bool same = na == nb && la[0] == lb[0] && (na < 2 || la[1] == lb[1]) && (na < 3 || la[2] == lb[2]) && (na < 4 || la[3] == lb[3]);
+  __CPROVER_assert(equalsNocase(a, b) == same, "case-insensitive equality coincides with equality of the lower-cased forms (texts of different byte length included)");
+  VF_CANARY();
+}
+''',
+    entry=None, unwind=6, floor=5, expect=['assertion'], kind='bounded', bound='texts of at most 2 bytes (two ASCII characters or one 2-byte character)',
+    desc='String::equalsNocase as a whole on short well-formed texts: true exactly when toLowerCase of both are the same bytes - e.g. U+0130 vs "i", whose byte lengths differ',
+    functions=['String::equalsNocase', 'String::toLowerCase (loop body)', 'String::Enumerator::operator*'],
+)
+UNITS += [nocase_whole]
